@@ -2,6 +2,7 @@ import PycsepVerif.Proto
 import PycsepVerif.GeneratedSrcSM
 import PycsepVerif.Drive.C12
 import PycsepVerif.Drive.C04
+import PycsepVerif.GeneratedSrc
 /-! driver ops `srcsm_<f>`: the definitions generated from the imperative / stateful Python source (GeneratedSrcSM.lean),
     made executable so that harness/src_tie_sm.py can compare them with the real Python functions (validation of
     py2lean_sm.py and PyPreludeSM.lean). Results: `ok <value…>` or `err <exception>`. -/
@@ -233,5 +234,52 @@ def handle : List String → Option String
             (fun a b => if a = mags ∧ b = edges then bres else []) (fun n => (n : Int)) (fun _ => some edges)
             (fun r => r.1) (fun r => r.2.1) (fun r => r.2.2) (rows, ncell) edges)
       | _, _, _, _, _, _, _ => "bad-op")
+  -- srcsm_poisson_test_loop <stream|inj> <nsim> <seed|none> <useObs 0/1> <weights> <sim_fore> <n_obs> <expected: bits>
+  --   <log_bin_expectations: bits or ninf> <observed_data_nonzero> <target_event_forecast> <rng> <pois> <seeded rng>
+  --   <seeded pois> <rows ;-separated | -> : `qs | obs_ll | simulated_ll | unused uniforms | unused Poisson draws`
+  --   real layer at Float; `poisson_joint_log_likelihood_ndarray` is its formula (stats.py:191-195) on the prelude operations;
+  --   the seeded streams are handed out for the seed of the request only
+  | ["srcsm_poisson_test_loop", mode, nsim, seed, uo, ws, sf, nobs, expd, logs, odn, tef, rng, pois, srng, spois, rows] => some (
+      let ell? : String → Option (ELL Float) := fun t => if t = "ninf" then some .negInf else (parseFloat? t).map .fin
+      let showE : ELL Float → String := fun x => match x with | .negInf => "ninf" | .fin v => showFloat v
+      match parseInt? nsim, (if seed = "none" then some none else (parseInt? seed).map some), parseList? parseRat? ws,
+            parseList? String.toNat? sf, nobs.toNat?, parseFloat? expd, parseList? ell? logs, parseList? String.toNat? odn,
+            parseList? ell? tef, parseList? parseRat? rng, parseList? String.toNat? pois, parseList? parseRat? srng,
+            parseList? String.toNat? spois, parseList2? parseRat? rows with
+      | some nsim, some seed, some ws, some sf, some nobs, some expd, some logs, some odn, some tef, some rng, some pois,
+        some srng, some spois, some rows =>
+        let jl : List (ELL Float) → List Nat → Float → ELL Float := fun l w e =>
+          Py.esubFin (Py.esubFin (Py.esum l) (Py.rsum (w.map (fun n => (Py.loggammaSucc n : Float))))) e
+        let sd : Int := match seed with | some s => s | none => 0
+        let seedRng : Int → List Rat := fun s => if s = sd then srng else []
+        let seedPois : Int → List Nat := fun s => if s = sd then spois else []
+        let showR : (Rat × ELL Float × List (ELL Float)) → String := fun r =>
+          s!"{showRat r.1}|{showE r.2.1}|{showList showE r.2.2}"
+        if mode = "stream" then
+          showM (fun r => s!"{showR r.1}|{r.2.1.length}|{r.2.2.length}")
+            (SrcSM.poisson_test_loop jl seedRng seedPois rng pois nsim seed (uo == "1") ws sf [] nobs expd logs odn tef)
+        else
+          showM (fun r => s!"{showR r.1}|{r.2.length}")
+            (SrcSM.poisson_test_loop_injected jl seedPois pois nsim rows seed (uo == "1") ws sf [] nobs expd logs odn tef)
+      | _, _, _, _, _, _, _, _, _, _, _, _, _, _ => "bad-op")
+  -- srcsm_binary_test_loop <stream|inj> <nsim> <seed|none> <weights> <sim_fore> <n_active_cells> <forecast: bits>
+  --   <observed> <fuel> <rng> <seeded rng> <rows | -> : `qs | obs_ll | simulated_ll [| unused uniforms]`
+  --   `binary_joint_log_likelihood_ndarray` is py2lean's generated definition (GeneratedSrc.lean) at Float
+  | ["srcsm_binary_test_loop", mode, nsim, seed, ws, sf, n, fd, obs, fuel, rng, srng, rows] => some (
+      match parseInt? nsim, (if seed = "none" then some none else (parseInt? seed).map some), parseList? parseRat? ws,
+            parseList? String.toNat? sf, n.toNat?, parseList? parseFloat? fd, parseList? String.toNat? obs, fuel.toNat?,
+            parseList? parseRat? rng, parseList? parseRat? srng, parseList2? parseRat? rows with
+      | some nsim, some seed, some ws, some sf, some n, some fd, some obs, some fuel, some rng, some srng, some rows =>
+        let bl : List Float → List Nat → Float := fun f c => Src.binary_joint_log_likelihood_ndarray f c
+        let sd : Int := match seed with | some s => s | none => 0
+        let showR : (Rat × Float × List Float) → String := fun r =>
+          s!"{showRat r.1}|{showFloat r.2.1}|{showList showFloat r.2.2}"
+        if mode = "stream" then
+          showM (fun r => s!"{showR r.1}|{r.2.length}")
+            (SrcSM.binary_test_loop (Masked := List Float) bl (fun s => if s = sd then srng else []) id fuel rng obs nsim seed
+              fd ws sf [] n)
+        else
+          showM showR (SrcSM.binary_test_loop_injected (Masked := List Float) bl id obs nsim rows seed fd ws sf [] n)
+      | _, _, _, _, _, _, _, _, _, _, _ => "bad-op")
   | _ => none
 end Drive.SrcSM
